@@ -327,7 +327,16 @@ pub fn site_of(loc: Location) -> Site {
 /// `prayer_times_dt` with panic attribution
 pub fn pt(p: &Params, loc: Location, date: NaiveDate, w: Option<Weather>) -> R {
     match std::panic::catch_unwind(std::panic::AssertUnwindSafe(|| prayer_times_dt(p, loc, date, w))) {
-        Ok(r) => r,
+        Ok(r) => {
+            // every oracle indexes the seven entries: a result without them is a violation of every
+            // property ("exactly seven entries"), attributed to its input like a panic
+            if r.len() != 7 || SEQ7.iter().any(|k| !r.contains_key(k)) {
+                let case = PtCase::new(p, site_of(loc), date).with_weather(w.map(|w| (f64::from(w.pressure), f64::from(w.temperature))));
+                LIB_PANIC.with(|l| *l.borrow_mut() = Some((case.to_value(), format!("the result has {} entries instead of the seven prayers: {:?}", r.len(), r.keys().collect::<Vec<_>>()))));
+                std::panic::panic_any("malformed result");
+            }
+            r
+        }
         Err(e) => {
             let case = PtCase::new(p, site_of(loc), date).with_weather(w.map(|w| (f64::from(w.pressure), f64::from(w.temperature))));
             LIB_PANIC.with(|l| *l.borrow_mut() = Some((case.to_value(), crate::c07::take_panic_msg())));
@@ -366,7 +375,7 @@ pub fn par_jobs<J: Sync, F: Fn(&J, &mut Local) + Sync>(ctx: &Ctx, jobs: &[J], f:
                     match LIB_PANIC.with(|p| p.borrow_mut().take()) {
                         Some((case, msg)) => {
                             // the library panicked: a violation with its input; the rest of this job is skipped
-                            ctx.violation("library_panic", &case.to_string(), case, json!({"panic": msg, "note": "the remaining cases of this job were skipped"}));
+                            ctx.violation("library_panic_or_malformed_result", &case.to_string(), case, json!({"what": msg, "note": "the remaining cases of this job were skipped"}));
                         }
                         None => std::panic::resume_unwind(e), // harness bug: machinery failure
                     }
